@@ -105,10 +105,10 @@ def main():
     kw = {"show_caches": True} if (3, 11) <= V < (3, 13) else {}
     with open(out, "w") as fh:
         for kind, x in objs:
-            for fl_name in ("none", "one", "plus1000"):
+            for fl_name in ("none", "zero", "one", "plus1000"):
                 co = code_of(x)
                 has_code = hasattr(co, "co_code")
-                fl = None if fl_name == "none" else (1 if fl_name == "one" else (co.co_firstlineno + 1000 if has_code else 1000))
+                fl = None if fl_name == "none" else (0 if fl_name == "zero" else (1 if fl_name == "one" else (co.co_firstlineno + 1000 if has_code else 1000)))
                 shift = 0 if (fl is None or not has_code) else fl - co.co_firstlineno
                 ident = "%s:%s:first_line=%s" % (HOST, kind, fl_name)
                 ds, dins = attempt(lambda: list(dis.get_instructions(x, first_line=fl, **kw)))
